@@ -17,14 +17,19 @@ LEVEL_TEXT = ('Partial. Coq theorems over R about the hand model of trust_region
               'flag=True only at a ConvergedAt event (or the initial test) at the returned point with |grad|^2 < tol^2 (both modes); '
               'flag=False => returned point is the current (last accepted or start) iterate and the trace ends with that exit; '
               'inner loop leaves within k+1 passes when trSize*t1^k < min_tr_size (0<t1<1, 0<min_tr_size, eta1<=eta2). '
+              'Structural tie (round 3): the syntax tree of trust_region_minimize / is_converged / is_on_boundary is re-extracted from the source on every run (gen/CFG_TR.v) and given a meaning by an interpreter of the Python subset (model/M_C01_CFG.v); '
+              'theorem C01_inner_loop_is_the_extracted_source: for every Num T, all oracles, settings, local-variable values and pass budgets, running the extracted `while not happyAboutTrSize` loop IS the hand model inner loop '
+              '(same exit, returned point, flag, callback/update_precond sequence, next state): order convergence-test/acceptance-test, rho and its re-signing, `not rho >= eta2`, radius updates, willAccept, preconditioner refresh, two-stage too-small exit. '
+              'The prologue, Cauchy-point block, outer for and max-iterations exit of the extracted tree are compared with the hand model only by execution (bit-for-bit on every generated case), not proved. '
               'Finding F1 (converged exit can go uphill) proved for the binary64 instance of the model by vm_compute and replayed on the code. '
               'Not proved (tested by L2 only): success on strictly convex problems (dedicated stream: default settings, 1..40 unknowns, condition numbers 1..1e3, three preconditioners, against an independent Newton reference), finiteness of iterates, the +0.0 model-objective corner, the driver nonlinear_equation_solve.')
 TECHNIQUE = 'Coq proof (Reals, lra/nra) on a hand-written state-machine model; vm_compute/PrimFloat correspondence on seeded polynomial objectives'
-GEN = ['EquationSolver']
-TARGETS = ['model/M_C06_Vec.vo', 'model/M_C06_CG.vo', 'model/M_C01_TR.vo', 'proofs/L_C06_Vec.vo', 'proofs/L_C01.vo', 'proofs/L_C01_F1.vo']
-COQ_FILES = ['base/Num.v', 'model/M_C06_Vec.v', 'model/M_C06_CG.v', 'model/M_C01_TR.v', 'proofs/L_C06_Vec.v', 'proofs/L_C01.v', 'proofs/L_C01_F1.v', 'props/P_C01.v']
+GEN = ['EquationSolver', 'CFG_TR']
+TARGETS = ['model/M_C06_Vec.vo', 'model/M_C06_CG.vo', 'model/M_C01_TR.vo', 'model/M_C01_CFG.vo', 'gen/CFG_TR.vo', 'proofs/L_C06_Vec.vo', 'proofs/L_C01.vo', 'proofs/L_C01_F1.vo', 'proofs/L_C01_CFG.vo']
+COQ_FILES = ['base/Num.v', 'model/M_C06_Vec.v', 'model/M_C06_CG.v', 'model/M_C01_TR.v', 'proofs/L_C06_Vec.v', 'proofs/L_C01.v', 'proofs/L_C01_F1.v', 'model/M_C01_CFG.v', 'proofs/L_C01_CFG.v', 'props/P_C01.v']
 TRUSTED = ['Coq 8.16.1 kernel + vm_compute (no native_compute)',
-           'hand model model/M_C01_TR.v (uses the C06 CG/dogleg model and the generated scalar kernels) tied only by the correspondence: event kinds/order, flags, counts exact; points within 1e-7 relative',
+           'hand model model/M_C01_TR.v (uses the C06 CG/dogleg model and the generated scalar kernels): its inner loop is proved equal to the interpreted syntax tree of the source; the rest (initial test, Cauchy block, outer loop) is tied by the correspondence: event kinds/order, flags, counts exact; points within 1e-7 relative',
+           'tools/vlib/extract_tr.py (purely syntactic AST -> IR translation, fail closed; drops only docstrings, pass and print / print_banner / print_min_banner statements) and the interpreter model/M_C01_CFG.v as the meaning of the Python subset (late-binding closures, float quotients compared IEEE-like, dogleg_step / solve_trust_region_minimization / numpy norm, sqrt as primitives = the C06 models)',
            'harness: duck-typed polynomial objectives mirrored in Gallina (Section Poly), recording callback / update_precond, float<->(mantissa,exponent) exchange',
            'near-tie rule: a mismatch counts as unstable only if (a) the IMPLEMENTATION itself changes its discrete trace / result when the arguments of its oracles are perturbed by <= 2 ulp (8 trials), (c) some gradient the solver evaluated had |g|^2 within 1e-6 relative of tol^2 (the convergence test is a near tie), or (b) the run reached objective differences between reported iterates of <= 64 ulp (rho is then cancellation noise)',
            'theorems are over exact reals (zero denominators treated as +0); binary64 rounding is covered only by the correspondence']
@@ -33,7 +38,7 @@ ASSUMPTIONS = ['none on the oracles (value, gradient, hessian_vec, preconditione
 RULE = ('objectives f(x) = x.Ax/2 + b.x + sum c_i x_i^3 + sum d_i x_i^4 in 1..6 variables with dyadic coefficients (convex, indefinite, unbounded-below variants), optionally an inconsistent hessian_vec (A+E), '
         'identity / diagonal-at-update / stale preconditioners, settings drawn to force every exit (max_trust_iters 1..3 or default, tiny tr_size, huge min_tr_size, eta1 in {0,1e-10,0.3}, both inner-product modes, incremental mode); '
         'a case is non-trivial when the solver performs at least one inner iteration; distinct = distinct (objective, start, settings) tuples')
-IMPORTS = ['From OV.model Require Import M_C06_Vec M_C06_CG M_C01_TR.']
+IMPORTS = ['From OV.model Require Import M_C06_Vec M_C06_CG M_C01_TR M_C01_CFG.', 'From OV.gen Require Import CFG_TR.']
 PREAMBLE = '''
 Definition enc_ev (e : event float) : list Z :=
   match e with
@@ -43,6 +48,13 @@ Definition enc_run (r : list float * bool * list (event float)) : list Z :=
   let '(x, f, tr) := r in benc f ++ fencs x ++ flat_map enc_ev tr.
 Definition run_poly (A E : list (list float)) (b c d : list float) (pk : nat) (x0 : list float) (S : settings float) : list Z :=
   enc_run (@trust_region_minimize float NumF (pvalue A b c d) (pgrad A b c d) (phessvec A E c d) (pprecond A c d pk x0) (pmult A c d pk x0) S 80 x0 x0).
+(* the syntax tree of trust_region_minimize extracted from the source (gen/CFG_TR.v), run by the interpreter of model/M_C01_CFG.v *)
+Definition enc_rawev (e : @rawev float) : list Z := match e with RCallback x => 1 :: fencs x | RPrecond x => 5 :: fencs x end.
+Definition enc_res (r : option (list float * bool * list (@rawev float))) : list Z :=
+  match r with None => [(-1)%Z] | Some (x, f, tr) => benc f ++ fencs x ++ flat_map enc_rawev tr end.
+Definition run_cfg (A E : list (list float)) (b c d : list float) (pk : nat) (x0 : list float) (S : settings float) (chk : bool) : list Z :=
+  enc_res (result_of (@run float NumF (pvalue A b c d) (pgrad A b c d) (phessvec A E c d) (pprecond A c d pk x0) (pmult A c d pk x0) S chk 80
+                        cfg_functions cfg_string_constants 200 cfg_trust_region_minimize [VObj; VV x0; VSet; VCb] x0)).
 '''
 
 
@@ -317,7 +329,7 @@ def concl(case, out, mods):
     return bad
 
 
-def model_expr(case):
+def model_expr(case, cfg=False):
     st = case['st']
     cg_tol = 0.2 * st['tol']
     s = ('{| s_t1 := %s; s_t2 := %s; s_eta1 := %s; s_eta2 := %s; s_eta3 := %s; s_max_trust_iters := %d; s_tol := %s; s_max_cg_iters := %d; '
@@ -325,7 +337,27 @@ def model_expr(case):
          % (C.cf(st['t1']), C.cf(st['t2']), C.cf(st['eta1']), C.cf(st['eta2']), C.cf(st['eta3']), st['max_trust_iters'], C.cf(st['tol']), st['max_cg_iters'],
             st['max_cumulative_cg_iters'], C.cf(cg_tol), C.cf(st['cg_inexact_solve_ratio']), C.cf(st['tr_size']), C.cf(st['min_tr_size']),
             'true' if st['use_preconditioned_inner_product_for_cg'] else 'false', 'true' if st['use_incremental_objective'] else 'false'))
-    return 'run_poly %s %s %s %s %s %d%%nat %s %s' % (cmat(case['A']), cmat(case['E']), cvec(case['b']), cvec(case['c']), cvec(case['d']), case['pk'], cvec(case['x0']), s)
+    args = '%s %s %s %s %s %d%%nat %s %s' % (cmat(case['A']), cmat(case['E']), cvec(case['b']), cvec(case['c']), cvec(case['d']), case['pk'], cvec(case['x0']), s)
+    if cfg:
+        return 'run_cfg %s %s' % (args, 'true' if st.get('check_stability') else 'false')
+    return 'run_poly ' + args
+
+
+def parse_cfg(zs, n):
+    """result of the interpreted syntax tree -> (flag, x, [(kind, point)]) with kind in {'cb', 'pc'}; None when the run has no result (fuel / error)"""
+    if len(zs) == 1 and zs[0] == -1:
+        return None
+    flag = bool(zs[0])
+    x = C.dec_floats(zs[1:1 + 2 * n])
+    i, ev = 1 + 2 * n, []
+    while i < len(zs):
+        ev.append(({1: 'cb', 5: 'pc'}[zs[i]], C.dec_floats(zs[i + 1:i + 1 + 2 * n])))
+        i += 1 + 2 * n
+    return flag, x, ev
+
+
+def same_floats(a, b):
+    return len(a) == len(b) and all((u != u and v != v) or (u == v and math.copysign(1.0, u) == math.copysign(1.0, v)) for u, v in zip(a, b))
 
 
 def parse_model(zs, n):
@@ -471,6 +503,38 @@ def correspondence(ctx, model_ok):
         else:
             unstable += 1
     ctx.count('model_vs_impl_comparisons', len(cases))
+    # the interpreted syntax tree of the CURRENT source (gen/CFG_TR.v) against the hand model, on the same cases, bit for bit:
+    # the Coq theorem C01_inner_loop_is_the_extracted_source covers the `while` body for all inputs; the prologue, the Cauchy-point
+    # block, the outer `for` and the exits after it are covered by this comparison
+    try:
+        res2 = C.coq_eval(IMPORTS, [model_expr(c, cfg=True) for c in cases], 'C01cfg', shard=40, preamble=PREAMBLE, timeout=900)
+    except C.CoqError as ex:
+        ctx.fail('correspondence', 'the syntax tree extracted from trust_region_minimize can no longer be interpreted: %s' % str(ex)[-600:])
+        return
+    cfg_mism = cfg_none = 0
+    for c, o, zs, zs2 in zip(cases, outs, res, res2):
+        flag, x, ev = parse_model(zs, c['n'])
+        r = parse_cfg(zs2, c['n'])
+        if r is None:
+            cfg_none += 1
+            if not any(k in ('fuel', 'undecodable') for k, _, _ in ev):
+                cfg_mism += 1
+                if cfg_mism <= 6:
+                    ctx.fail('correspondence', 'trust_region_minimize: the interpreter of the extracted syntax tree has no result (unsupported construct reached / depth) where the hand model has one',
+                             case=dict({k: v for k, v in c.items()}, impl=dict(x=o['x'], flag=o['flag'], log=o['log'])))
+            continue
+        cbk = ('cinit', 'accept', 'conv', 'small') + (('maxit',) if c['st'].get('check_stability') else ())
+        mraw = [('pc' if k == 'pc' else 'cb', p) for k, p, _ in ev if k == 'pc' or k in cbk]
+        ok = (r[0] == flag and same_floats(r[1], x) and len(r[2]) == len(mraw) and all(a[0] == b[0] and same_floats(a[1], b[1]) for a, b in zip(r[2], mraw)))
+        if not ok:
+            cfg_mism += 1
+            if cfg_mism <= 6:
+                ctx.fail('correspondence', 'trust_region_minimize: the source as extracted (gen/CFG_TR.v, interpreted) and the hand model M_C01_TR.v disagree: extracted %r / flag %s, hand model %r / flag %s'
+                         % ([k for k, _ in r[2]], r[0], [k for k, _ in mraw], flag),
+                         case=dict({k: v for k, v in c.items()}, impl=dict(x=o['x'], flag=o['flag'], log=o['log'])))
+    ctx.count('extracted_tree_vs_hand_model_comparisons', len(cases))
+    ctx.count('extracted_tree_vs_hand_model_mismatches', cfg_mism)
+    ctx.count('extracted_tree_runs_without_result', cfg_none)
     ctx.count('model_vs_impl_mismatches', mism)
     ctx.count('unstable_near_tie_cases', unstable)
     ctx.count('model_out_of_fuel', fuel)
